@@ -74,7 +74,9 @@ where
                         want = mulm(want, subm(xv, pts[s], p), p);
                     }
                     let got = d.evaluate_at(B::from_int(xv)).int();
-                    if got != want {
+                    if d.exemptions().iter().any(|z| z.int() == xv) {
+                        rep.count("base_point_is_an_exemption_point_skipped");
+                    } else if got != want {
                         rep.violation("transition-divisor-value", json!({"ctx": ctx, "x": xv.to_string()}));
                     }
                     // extension point: compare through the extension reference
@@ -84,8 +86,13 @@ where
                     for s in 0..n - e {
                         w = esq.mul(w, esq.sub(xr, [pts[s], 0, 0]));
                     }
-                    if d.evaluate_at(xe).to_ref() != w {
-                        rep.violation("transition-divisor-value-extension", ctx.clone());
+                    // at an exempted trace-domain point the divisor's rational form
+                    // (x^n - 1) / prod (x - exemption) is 0/0: evaluate_at is only meaningful off
+                    // those points (the biased generator does produce -1 = g^(n/2) and 1)
+                    if d.exemptions().iter().any(|z| QuadExtension::<B>::from(*z) == xe) {
+                        rep.count("extension_point_is_an_exemption_point_skipped");
+                    } else if d.evaluate_at(xe).to_ref() != w {
+                        rep.violation("transition-divisor-value-extension", json!({"ctx": ctx, "x": format!("{xr:?}")}));
                     }
                 }
             }
